@@ -361,8 +361,10 @@ impl Parser {
     }
 
     fn parse_octal(&mut self, _: bool) -> Expression {
+        // error recovery may move the token window: keep the literal being parsed
+        let literal = self.current.literal.clone();
         self.peek_invalid_assignment(false);
-        let str_value = &self.current.literal[2..];
+        let str_value = &literal[2..];
         if let Ok(value) = i64::from_str_radix(str_value, 8) {
             Expression::Integer(IntegerLiteral {
                 token: self.current.clone(),
@@ -379,8 +381,10 @@ impl Parser {
     }
 
     fn parse_hexadecimal(&mut self, _: bool) -> Expression {
+        // error recovery may move the token window: keep the literal being parsed
+        let literal = self.current.literal.clone();
         self.peek_invalid_assignment(false);
-        let str_value = &self.current.literal[2..];
+        let str_value = &literal[2..];
         if let Ok(value) = i64::from_str_radix(str_value, 16) {
             Expression::Integer(IntegerLiteral {
                 token: self.current.clone(),
@@ -397,8 +401,10 @@ impl Parser {
     }
 
     fn parse_binary(&mut self, _: bool) -> Expression {
+        // error recovery may move the token window: keep the literal being parsed
+        let literal = self.current.literal.clone();
         self.peek_invalid_assignment(false);
-        let str_value = &self.current.literal[2..];
+        let str_value = &literal[2..];
         if let Ok(value) = i64::from_str_radix(str_value, 2) {
             Expression::Integer(IntegerLiteral {
                 token: self.current.clone(),
